@@ -184,6 +184,10 @@ def _safe_restamp_source(model, e, seen=None):
     seen = seen or set()
     if isinstance(e, ast.List):
         return all(_safe_tok(model, x) for x in e.elts)
+    if isinstance(e, ast.IfExp):
+        return _safe_restamp_source(model, e.body, seen) and _safe_restamp_source(model, e.orelse, seen)
+    if isinstance(e, ast.BinOp) and isinstance(e.op, ast.Add):
+        return _safe_restamp_source(model, e.left, seen) and _safe_restamp_source(model, e.right, seen)
     if isinstance(e, ast.Name):
         vals = T.resolve_local(model, e)
         if any(v is e for v in vals):
@@ -287,9 +291,15 @@ def _class_filter_ok(model, fn, r, st):
     outer = fn.outer if fn.outer is not None else fn
     filt_param = None
     for n in ast.walk(outer.node):
-        if isinstance(n, ast.Compare) and len(n.ops) == 1 and isinstance(n.ops[0], ast.Is) \
+        if isinstance(n, ast.Compare) and len(n.ops) == 1 and isinstance(n.ops[0], (ast.Is, ast.IsNot)) \
                 and isinstance(n.left, ast.Call) and T.call_name(n.left) == 'type' \
                 and isinstance(n.comparators[0], ast.Name) and n.comparators[0].id in outer.params:
+            # `type(t) is tok_typ` keeps, `type(t) is not tok_typ: continue` skips: the restamp
+            # must stand on the side where the class matches
+            keep_side = isinstance(n.ops[0], ast.Is)
+            facts = [(e, t) for e, t in guards.facts(st) if e is n or unparse(e) == unparse(n)]
+            if facts and all(t != keep_side for e, t in facts) :
+                continue
             filt_param = n.comparators[0].id
     if filt_param is None:
         return False
